@@ -379,6 +379,23 @@ def gen_cases(ctx, quick):
             q = [[rows[0][k] + v for k, v in enumerate(qq)] if cb is None else qq for qq, cb in zip(q, combs)]
             cases.append({"topic": "proj", "label": "large-mean", "method": m, "N": N, "D": D, "d": d, "k": 5,
                           "seed": r.range(1, 10 ** 6), "rows": rows, "q": q, "combs": combs, "exact": False})
+        # data in VERY small units (coordinates ~2^-48 .. 2^-41, i.e. below every absolute epsilon such as Eigen's
+        # isZero() 1e-12 or a 1e-9 ridge) with a mean that is NOT small relative to the spread: projection(x) = Pᵀ(x − mean)
+        # and the embedding rows must still agree and be centred (seeded change C07-w6 needed this family).  Power-of-two
+        # units keep the data exact; PCA and Random Projection are exactly scale-equivariant.
+        for m in ("pca", "rp"):
+            N = r.range(6, 12)
+            D = r.range(2, 4)
+            unit = Fraction(2) ** r.choice([-48, -46, -44])     # harness numbers are parsed with stoll: denominators < 2^63
+            off = [r.choice([-1, 1]) * r.range(1, 9) for _ in range(D)]
+            rows = [[(Fraction(o) + v) * unit for o, v in zip(off, row)] for row in sp.low_rank_points(r, N, D, D, amp=3)]
+            d = r.range(1, D)
+            q, combs = gen_queries(r, rows, D, 3)
+            q = [[v * unit for v in qq] if cb is None else qq for qq, cb in zip(q, combs)]
+            cases.append({"topic": "proj", "label": "tiny-units", "method": m, "N": N, "D": D, "d": d, "k": 5,
+                          "seed": r.range(1, 10 ** 6), "rows": rows, "q": q, "combs": combs, "exact": False})
+            if r.chance(1, 2):
+                cases[-1]["all"], cases[-1]["sel"] = sp.with_decoys_points(r, rows)
         # every method once per round: presence / absence of a projection
         N = r.range(12, 20)
         D = 3
